@@ -540,6 +540,9 @@ def run(ck):
 
     # ---- R12.8 the cursor wraps modulo the flow's count: the count a flow is built with is at least 1 ----------------------------------------
     ck.rule('R12.8', 'every divisor of the cursor arithmetic is a flow count, and no flow is built with a count below 1')
+    ck.explanation += (' R12.8 every i32 `%`/`/` in uigen::layout divides by a count field of a LayoutFlow variant (bound by pattern) or a non-zero constant; at every '
+                       'construction of such a variant the lower bound of the field value, read backwards through lets, the local closure, and_then/map/unwrap_or and the '
+                       'comparisons that dominate the `Some(c)`, is at least 1 (a zero count would abort the run in the modulo).')
     flow_counts_positive(ck, L, 'R12.8')
 
 
